@@ -31,6 +31,9 @@ def run(check):
         'kinds': 'C02.R1', 'clear_must': 'C02.R2', 'clear_only': 'C02.R2', 'order': 'C02.R6'}))
     from ..rules_defuse import rule_sentinel_identity
     check.run_rule('C02.R8', lambda c: rule_sentinel_identity(c, 'C02.R8', ['_signatures'], '-- embed raises IncompatibleSignatures for compatible signatures', floor=6))
+    # "raises IncompatibleSignatures": also for what only the construction of the result finds (shared with C15.R13)
+    from ..rules_escape import rule_validation_converted
+    check.run_rule('C02.R9', lambda c: rule_validation_converted(c, 'C02.R9'))
     check.run_rule('C02.R3', lambda c: rule_embed_dupes(c, model(), 'C02.R3'))
     check.run_rule('C02.R4', lambda c: rule_embed_flags(c, model(), 'C02.R4'))
 
